@@ -82,17 +82,20 @@ Theorem C13_filter_inputs_invariant : forall dx dy b m t,
 Proof. exact filter_inputs_invariant. Qed.
 Print Assumptions C13_filter_inputs_invariant.
 
-(* nested layers: equivariance needs the frame guard of C14 (accumulated layer origin within +-2 canvases);
-   without it the clamp cuts visible content differently before and after the shift *)
-Theorem C13_nested_frame_refuted :
-  exists W H m b dx dy ox px py,
-    max_bbox W H = Some m /\ small_bboxb b = true /\ small_bboxb (qshift dx dy b) = true /\
-    frame_okb W H ox 0 m = false /\
-    in_irect (canvas_rect W H) px py /\ in_irect (canvas_rect W H) (px + dx) (py + dy) /\
-    in_lres (layer_box (qshift dx dy b) true m) (px + dx - ox) (py + dy) /\
-    ~ in_lres (layer_box b true m) (px - ox) py.
-Proof. exact nested_shift_refuted. Qed.
-Print Assumptions C13_nested_frame_refuted.
+(* nested layers, any depth (full strength since ffdf909: children are clamped against the clamp box moved into
+   the layer's frame).  The two renderings may reach the group through differently clamped enclosing layers -
+   frames (ox,oy,m) and (ox',oy',m') - while its content moves by (dx,dy) in device space; the layers still
+   agree on every pixel that is on the canvas in both *)
+Theorem C13_nested_layers_agree_on_canvas : forall dx dy b nf m0 W H ox oy m ox' oy' m' px py,
+  let b' := qshift (dx - (ox' - ox)) (dy - (oy' - oy)) b in
+  small_bbox b -> small_bbox b' ->
+  1 <= W <= CANVAS_MAX -> 1 <= H <= CANVAS_MAX -> max_bbox W H = Some m0 ->
+  frame m0 ox oy m -> frame m0 ox' oy' m' ->
+  in_irect (canvas_rect W H) px py -> in_irect (canvas_rect W H) (px + dx) (py + dy) ->
+  (in_lres (layer_box b nf m) (px - ox) (py - oy) <->
+   in_lres (layer_box b' nf m') (px + dx - ox') (py + dy - oy')).
+Proof. exact nested_layers_agree. Qed.
+Print Assumptions C13_nested_layers_agree_on_canvas.
 
 (* ------------------------------------------------------------------ non-vacuity *)
 Example C13_nv_shift :
